@@ -220,6 +220,7 @@ def build_file(case, d):
             cut = len(groups[0]) // 2
             groups = [groups[0][:cut]] + groups[1:] + [groups[0][cut:]]
         defs = {k: FMT_DEFS[k] for k in fmt if k in FMT_DEFS}
+        defs["DP"] = FMT_DEFS["DP"]                             # records without GT fall back to FORMAT DP
         if case["pq"] != "none":
             defs["PQ"] = FMT_DEFS["PQ_" + case["pq"]]
         P = os.path.join(d, f"P{fi + 1}.vcf")
